@@ -5,7 +5,7 @@
 import os, sys
 sys.path.insert(0, os.path.join(os.environ.get("AIOFTP_REPO", "/repo"), "src"))
 OBLIGATION = 'aioftp.server:lemma:ls-date-round-trip(build_list_mtime;parse_ls_date)::Server.build_list_mtime/post:old-or-future-mtime-round-trips-to-the-day'
-MODEL = {'s_mi!10': 1, 's_Y!6': 2003, 'c_mi!16': 0, 's_h!9': 23, 'c_D!14': 1, 'frac_m!19': '0/1', 's_D!8': 31, 'm_mi!4': 59, 'frac_s!20': '0/1', 'm_s!5': 59, 'c_M!13': 2, 's_s!11': 0, 's_M!7': 1, 'c_s!17': 0, 'm_Y!0': 2004, 'm_M!1': 2, 'c_h!15': 0, 'm_h!3': 23, 'frac_c!21': '0/1', 'm_D!2': 29, 'int2str!22': '2000', 'c_Y!12': 2003}
+MODEL = {'s_mi!10': 59, 's_Y!6': 2003, 'c_mi!16': 58, 's_h!9': 23, 'm_M!1': 2, 'c_D!14': 1, 'frac_m!19': '1/2', 's_D!8': 30, 'm_mi!4': 59, 'frac_s!20': '1/2', 'm_s!5': 59, 'c_M!13': 5, 's_s!11': 59, 's_M!7': 4, 'c_s!17': 59, 'm_Y!0': 2008, 'c_h!15': 0, 'frac_c!21': '1/2', 'm_h!3': 23, 'm_D!2': 29, 'int2str!22': '2000', 'c_Y!12': 2003}
 SOLVER_NOTE = ''
 
 print("obligation", OBLIGATION, "failed; no concrete failing input could be constructed automatically")
